@@ -30,7 +30,7 @@ def new_fn(name, kind, refs=(), hidden=(), explicit=None, cluster="vz"):
 
 
 def random_prog(r, nmem=3, nplain=2, nvar=2, hidden_p=0.15, forms=("bare", "bare", "attr", "alias"), acyclic=True,
-                init_p=0.0, twins_p=0.0, late_p=0.0, shapes_p=0.0, factory_p=0.0):
+                init_p=0.0, twins_p=0.0, late_p=0.0, shapes_p=0.0, factory_p=0.0, deco_p=0.0):
     names = ["m%d" % i for i in range(1, nmem + 1)] + ["h%d" % i for i in range(1, nplain + 1)]
     vars_ = ["v%d" % i for i in range(1, nvar + 1)]
     nodes = []
@@ -54,6 +54,11 @@ def random_prog(r, nmem=3, nplain=2, nvar=2, hidden_p=0.15, forms=("bare", "bare
     for v in vars_:
         nodes.append({"name": v, "kind": "var", "val": copy.deepcopy(r.choice(pool))})
     fns = [n for n in nodes if n["kind"] in ("mem", "plain")]
+    # plain helpers under a functools.wraps decorator (all wrappers share one code object)
+    if r.random() < deco_p:
+        for n in fns:
+            if n["kind"] == "plain":
+                n["deco"] = True
     # a plain leaf helper lives in the package's __init__ module
     if r.random() < init_p:
         leaves = [n for n in fns if n["kind"] == "plain" and not n["hidden"] and all(q["to"][0] == "v" for q in n["refs"])
@@ -139,6 +144,8 @@ def fn_source(n, twin=False, decorate=True):
         lines.append("def %s(a, d=%d, fnarg=None, *, k=%d):" % (defname, s["dflt"], s["kwd"]))
     else:
         lines.append("def %s(a, d=%d, *, k=%d):" % (defname, s["dflt"], s["kwd"]))
+    if n.get("deco") and n["kind"] == "plain" and not n.get("cls") and n.get("where") != "init":
+        lines.insert(len(lines) - 1, "@_deco")
     if not twin:
         lines.append("    log('Body', %r)" % name)
     lines.append("    acc = [%r, %d, 'c%d', d, k]" % (name, s["body"], s["const"]))
